@@ -22,7 +22,7 @@ R = {
  "C14": ("caught", "quick seed 1: the coverage theorem over the regenerated site list no longer holds (proof obligations broken, theorems=0) and 149 monitor failures (processes diverge on balances/fault counters) -> VIOLATION impl-violation", ""),
  "C15": ("caught", "quick seed 1: corr_mismatch=6 monitor_fail=1 (observed panic) -> VIOLATION impl-violation", ""),
  "C16": ("caught", "quick seed 1: corr_mismatch=240 monitor_fail=720 -> VIOLATION impl-violation", ""),
- XX
+  "C17": ("caught", "quick seed 1: the real BeginBlock panics ('negative coin amount') inside the harness's own FinalizeBlock; first reported as VIOLATION ... no-failing-input-found (harness abort = broken correspondence); the orchestrator now reports an implementation panic/failed block during the generated history as impl-violation with the seed as replay", "check: harness abort by an implementation panic is an impl-violation"),
  "C18": ("caught", "quick seed 1: corr_mismatch=21, no monitor failure; the violation search (seed 101) found a monitor failure (admitted below the minimum gas price) -> VIOLATION impl-violation", ""),
  "C19": ("caught", "quick seed 1: corr_mismatch=3 monitor_fail=6 -> VIOLATION impl-violation", ""),
  "C20": ("caught after strengthening", "first run: 344 cases, exit 0 (configurations with colliding digit strings never followed each other in one process); after the call-sequence families of harness/c20/seq.go: corr_mismatch=49 monitor_fail=48 -> VIOLATION impl-violation", "harness/c20/seq.go"),
